@@ -426,7 +426,7 @@ example :
                          behav := fun _ _ _ => { ret := 3, sends := [1] }, truthy := fun v => v != 0 }
     let c : Cfg := { cur := some 5 }
     c.cur.bind (lookupState m) = some 0 ∧
-    (trigger nestedRtc m ⟨0, 1⟩ c).2 = .ok (some (.one 3)) ∧ (trigger nestedRtc m ⟨0, 1⟩ c).1.cur = some 0 := by
+    (trigger nestedRtc m ⟨0, 1, false⟩ c).2 = .ok (some (.one 3)) ∧ (trigger nestedRtc m ⟨0, 1, false⟩ c).1.cur = some 0 := by
   decide
 
 end SMV
